@@ -12,6 +12,7 @@ C02 and C10 theorems are about.
     rate <scheme> <host> <path|-> <num>/<den>        ready <scheme> <host> <path|-> 0|1
     race <pairs> <reqs>          serve-remove <scheme> <host> <path|->
     remove-serve <scheme> <host> <path|->            serve-serve            upsert … meterfail=1
+    pupsert <n> <scheme> <host> <path|-> [user=..] [query=..] [w=<int>]
 -/
 open RB PoolM RR
 
@@ -90,6 +91,27 @@ def step (s : Sys) (f : List String) : Sys × String :=
     let r1 := doOp s (.serve none none)
     let r2 := doOp r1.1 (.remove (mkURL [] sc h p))
     (r2.1, r1.2 ++ " ; " ++ r2.2)
+  | "pupsert" :: ns :: sc :: h :: p :: rest =>
+    -- n goroutines upsert the same URL at once: atomic calls, so n sequential upserts
+    if !(rest.all isKV) then (s, "bad-op") else
+    match ns.toNat? with
+    | none => (s, "bad-op")
+    | some n =>
+      if n < 1 || n > 64 then (s, "bad-op") else
+      let w : Option (Option Int) := match Driver.kv rest "w" with
+        | some ws => (parseInt ws).map some
+        | none => some none
+      match w with
+      | none => (s, "bad-op")
+      | some w =>
+        let u := mkURL rest sc h p
+        let r := (List.range n).foldl (fun (acc : Sys × Nat × Nat) _ =>
+          let t := acc.1.step (.upsert u w)
+          match t.2 with
+          | .ok => (t.1, acc.2.1 + 1, acc.2.2)
+          | _ => (t.1, acc.2.1, acc.2.2 + 1)) (s, 0, 0)
+        -- (the harness's reserved holder server is removed at the end, which leaves the iterator reset)
+        (r.1.withBal { r.1.bal with it := It.reset }, "pupsert ok=" ++ toString r.2.1 ++ " negweight=" ++ toString r.2.2 ++ " other=0")
   | ["remove-serve", sc, h, p] =>
     -- `RemoveServer`, and a request issued while the rebalancer is between the balancer's removal and
     -- dropping its record: atomic calls, so "removal, then request"; the harness leaves the iterator reset
